@@ -228,3 +228,28 @@ def pool_item(x):
     if poison:
         raise ValueError('poison input')
     return ('r', v)
+
+
+def _slow_make(delay):
+    time.sleep(delay)
+    return SlowLoad(delay)
+
+
+class SlowLoad:
+    """a value that is cheap to create and to pickle but slow to UNpickle (the receiving side sleeps `delay` seconds)"""
+
+    def __init__(self, delay):
+        self.delay = delay
+
+    def __reduce__(self):
+        return (_slow_make, (self.delay,))
+
+    def __eq__(self, o):
+        return type(o) is SlowLoad and o.delay == self.delay
+
+    def __repr__(self):
+        return f'SlowLoad({self.delay})'
+
+
+def ret_slowload(delay):
+    return SlowLoad(delay)
